@@ -47,7 +47,8 @@ def gc(  # noqa: C901
         path = odb.oid_to_path(hash_)
         if _is_dir_hash(hash_):
             # backward compatibility
-            odb._remove_unpacked_dir(hash_)
+            if not dry:
+                odb._remove_unpacked_dir(hash_)
             dir_paths.append(path)
         else:
             file_paths.append(path)
